@@ -122,12 +122,12 @@ End Gen.
 (* the two resize lemmas in the shape the induction wants *)
 Lemma inv_resize_pen : forall e w h t r w2 h2,
   TP.WFs0 e w h t -> vaxis_modes t = true -> emu_rel t r -> tm_pen r = tpen0 -> tm_link r = ([], []) ->
-  1 <= w2 -> 1 <= h2 -> True -> resize_pen_ok t = true ->
+  1 <= w2 -> 1 <= h2 -> True -> True ->
   exists t2, T.resize t w2 h2 = T.TOk t2 /\ TP.WFs0 e w2 h2 t2 /\ vaxis_modes t2 = true /\
     emu_rel t2 (ref_resized r t2) /\ resized r (ref_resized r t2) h2 w2 /\ True.
 Proof.
-  intros e0 w0 h0 t0 r0 w2 h2 W M R _ _ Hw Hh _ Hp.
-  destruct (resize_rel e0 w0 h0 t0 r0 w2 h2 W M R Hw Hh Hp) as (t2 & A & B & C & D & E).
+  intros e0 w0 h0 t0 r0 w2 h2 W M R _ _ Hw Hh _ _.
+  destruct (resize_rel e0 w0 h0 t0 r0 w2 h2 W M R Hw Hh) as (t2 & A & B & C & D & E).
   exists t2. auto 8.
 Qed.
 
@@ -179,15 +179,15 @@ Proof.
 Qed.
 
 (* the general form: from any well-formed start state in Vaxis' modes related to a reference
-   terminal; at every resize the decidable hypothesis [resize_pen_ok] on the emulator state *)
+   terminal; nothing is asked at a resize *)
 Theorem emu_history_resize_correct tw measure fs s r t e w h :
   v_caps s = term_caps -> settled s r -> (v_refresh s = false -> in_sync measure term_caps s r) ->
   size_ok (tm_rows r) (tm_cols r) ->
   TP.WFs0 e w h t -> vaxis_modes t = true -> emu_rel t r ->
-  emu_history_resize (fun t => resize_pen_ok t = true) tw measure s (tm_rows r) (tm_cols r) t fs.
+  emu_history_resize (fun _ => True) tw measure s (tm_rows r) (tm_cols r) t fs.
 Proof.
   intros. apply hist_gen_resize.
-  apply (hist_gen_correct (fun t => resize_pen_ok t = true) (fun _ => True)) with (e := e) (w := w) (h := h); auto.
+  apply (hist_gen_correct (fun _ => True) (fun _ => True)) with (e := e) (w := w) (h := h); auto.
   exact inv_resize_pen.
 Qed.
 
@@ -251,11 +251,11 @@ Qed.
 Theorem app_in_term_resize_any tw measure rows cols t0 e fs :
   1 <= rows -> 1 <= cols -> size_ok rows cols ->
   TP.WFs0 e cols rows t0 -> vaxis_modes t0 = true -> start_ok t0 = true ->
-  emu_history_resize (fun t => resize_pen_ok t = true) tw measure (vinit term_caps rows cols) rows cols t0 fs.
+  emu_history_resize (fun _ => True) tw measure (vinit term_caps rows cols) rows cols t0 fs.
 Proof.
   intros Hr Hc Hsz W M S.
   destruct (start_rel e cols rows t0 W S) as (R & Q1 & Q2 & Q3 & Q4 & Q5 & Q6).
-  assert (H : emu_history_resize (fun t => resize_pen_ok t = true) tw measure (vinit term_caps rows cols)
+  assert (H : emu_history_resize (fun _ => True) tw measure (vinit term_caps rows cols)
                 (tm_rows (ref_start t0)) (tm_cols (ref_start t0)) t0 fs).
   { apply (emu_history_resize_correct tw measure fs _ (ref_start t0) t0 e cols rows); auto.
     - now apply vinit_settled.
